@@ -117,6 +117,19 @@ def gen_scenario(rng, tier, knobs):
         if rng.random() < knobs.get('soe_share', 0.1):
             d['stage_on_error'] = True
         tasks.append(t)
+    if knobs.get('preplaced_share') and \
+            rng.random() < knobs['preplaced_share']:
+        # application made placements (description.slots, from the pilot's
+        # node list) for the first tasks, into the idle pilot; the others
+        # are placed by the pilot scheduler afterwards
+        k = rng.randint(1, max(1, n // 2))
+        for i, t in enumerate(tasks):
+            if i < k:
+                t['preplaced'] = True
+                t['at'] = 0.0
+                t['runtime'] = rng.choice([0.3, 1.0, 2.5])
+            else:
+                t['at'] = round(0.5 + t['at'], 2)
     ops = list()
     if rng.random() < knobs.get('cancel_prob', 0.3):
         ops.append([round(rng.uniform(0.0, 3.0), 2), 'cancel',
@@ -445,6 +458,24 @@ def run(seed, sc, trace=None, tier='quick'):
                 elif op[1] == 'io_fault':
                     install_io_fault(sim, st, op[2], 'task.%06d' % op[3])
 
+            # application level node list (built as `Pilot.nodelist` does,
+            # from the resource details the agent reports)
+            nl = {'obj': None}
+
+            def app_slots(d):
+                from .agentsim import preplace
+                if nl['obj'] is None:
+                    lay = sc['layout']
+                    rm  = w['pilot'].reg['rm.%s' % lay['rm'].lower()]
+
+                    class _P(object):
+                        _nodelist = None
+                        resource_details = {
+                            'node_list': copy.deepcopy(rm['node_list']),
+                            'numa_domain_map': None}
+                    nl['obj'] = rp.Pilot.nodelist.fget(_P())
+                return preplace(nl['obj'], d)
+
             # timeline -----------------------------------------------------------
             tl = list()
             for i, t in enumerate(sc['tasks']):
@@ -481,6 +512,11 @@ def run(seed, sc, trace=None, tier='quick'):
                     d['uid'] = uid
                     if sc.get('ghost') == 'early':
                         d['pilot'] = GHOST if t.get('ghost') else E.PID
+                    if t.get('preplaced'):
+                        slots = app_slots(d)
+                        if slots:
+                            sim.probe('app_placement')
+                            d['slots'] = slots
                     if ins : d['input_staging']  = ins
                     if outs: d['output_staging'] = outs
                     st['exp'][uid]  = exp
